@@ -291,7 +291,10 @@ fn apply_bad(
 			header_valid,
 			on_fork,
 		} => {
-			let r = subject.process_block(block.clone(), opts);
+			// as received from a peer, while syncing, or from the node's own miner
+			let (otag, o) = [("", opts), ("+SYNC", opts | Options::SYNC), ("+MINE", opts | Options::MINE)][(block.hash().as_bytes()[5] % 3) as usize];
+			let r = subject.process_block(block.clone(), o);
+			*stats.injected.entry(format!("bad_block_delivered_with_options{}", if otag.is_empty() { "_plain" } else { otag })).or_insert(0) += 1;
 			if *on_fork {
 				stats.late_on_fork += 1;
 			}
